@@ -48,6 +48,11 @@ def inputs(case):
     H, W, D = shape
     data = dict(image=img, mask=rs.randint(0, 4, shape).astype(np.uint8),
                 masks=[rs.randint(0, 4, shape).astype(np.uint8)], dicom=copy.deepcopy(DICOM))
+    hv = case.get('header_variant', 0)
+    if hv:
+        data['dicom']['PixelSpacing'] = (0.7 + 0.15 * hv, 0.4 + 0.1 * hv)
+        data['dicom']['XRayTubeCurrent'] = 160 + 40 * hv
+        data['dicom']['RescaleIntercept'] = -1024.0 + 24 * hv
     data['bboxes'] = [(1.0, 1.0, 1.0, W - 2.0, H - 2.0, D - 2.0, 'a'), (2.0, 1.5, 0.5, 5.0, 4.5, 3.5, 'b')]
     data['keypoints'] = [(float(rs.randint(0, W)), float(rs.randint(0, H)), float(rs.randint(0, D)), 0.3, 1.5)
                          for _ in range(12)]
@@ -91,7 +96,8 @@ def main():
             pipe = build()
             for hcall in range(cfg['history']):
                 random.seed(1000 + hcall)
-                hc = dict(case, data_seed=case['data_seed'] + 17 + hcall)
+                # earlier calls on OTHER scans: other voxels, other header values (a cache keyed by too little shows here)
+                hc = dict(case, data_seed=case['data_seed'] + 17 + hcall, header_variant=1 + hcall)
                 try:
                     pipe(**inputs(hc))
                 except Exception:  # noqa
